@@ -83,12 +83,16 @@ static int do_pull(node *n, const char *opname, const unsigned char *in, size_t 
                    int expect_ok, int cidx)
 {
     unsigned char out[64], tg = 0x55; ull ml = 4242; sstate before = n->pull; int r, i;
+    /* accepted pulls rotate through the four forms of the optional outputs (both given, tag_p NULL, mlen_p NULL, both NULL) as a function of
+     * the history, so that every tag kind is pulled in every form somewhere in the graph; the state evolution must not depend on the form */
+    int form = expect_ok ? (cidx + n->nql + n->npl) & 3 : 0;
     memset(out, 0xA5, sizeof out);
-    r = crypto_secretstream_xchacha20poly1305_pull(&n->pull, out + 8, &ml, &tg, in, inlen, ad, adlen);
+    r = crypto_secretstream_xchacha20poly1305_pull(&n->pull, out + 8, (form & 2) ? NULL : &ml, (form & 1) ? NULL : &tg, in, inlen, ad, adlen);
     n_trans++;
     if (expect_ok) {
         const chunk *c = &n->ch[cidx];
         if (r != 0) { fail_node(n, opname, "genuine next chunk %d rejected", cidx); return 0; }
+        if (form & 2) ml = c->mlen; if (form & 1) tg = c->tag;
         if (ml != c->mlen || memcmp(out + 8, MSG, c->mlen) || tg != c->tag) fail_node(n, opname, "pull returned wrong message/tag/length (mlen %llu tag %u)", ml, tg);
         if (out[7] != 0xA5 || out[8 + c->mlen] != 0xA5) fail_node(n, opname, "pull wrote outside the message");
         n->qlog[n->nql++] = (unsigned char) cidx; n->last_accepted = cidx;
@@ -111,7 +115,9 @@ static void step_push(const node *n0, int depth, int tag, int shape)
     node n = *n0; chunk *c = &n.ch[n.nchunks]; unsigned char want[40]; ull ol = 0; size_t mlen = shape ? 17 : 0, adlen = shape ? 5 : 0; char op[24];
     snprintf(op, sizeof op, "push(t%d,s%d)", tag, shape);
     memset(c->bytes, 0xA5, sizeof c->bytes);
-    if (crypto_secretstream_xchacha20poly1305_push(&n.push, c->bytes, &ol, mlen ? MSG : NULL, mlen, adlen ? AD : NULL, adlen, (unsigned char) tag) != 0) fail_node(&n, op, "push failed");
+    { int nolen = (n.npl + n.nchunks + tag) & 1;       /* every other push passes clen_p == NULL (optional output) */
+      if (crypto_secretstream_xchacha20poly1305_push(&n.push, c->bytes, nolen ? NULL : &ol, mlen ? MSG : NULL, mlen, adlen ? AD : NULL, adlen, (unsigned char) tag) != 0) fail_node(&n, op, "push failed");
+      if (nolen) ol = mlen + 17; }
     n_trans++;
     c->len = mlen + 17; c->mlen = mlen; c->has_ad = shape; c->tag = (unsigned char) tag;
     if (ol != c->len) fail_node(&n, op, "push reported length %llu", ol);
